@@ -15,12 +15,18 @@ def report(pid, tier, seed, spec, vcs, results, wall):
     unsupported = [(r["vc"], u) for r in ok for u in r["unsupported"]]
     truncated = [r["vc"] for r in ok if r["truncated"]]
     vacuous = []
+    wit, twin = {}, {}
     for r in ok:
-        for w, found in r["witness"].items():
-            if not found: vacuous.append(f"{r['vc']}: witness `{w}` unreachable")
-        for t, failed in r["twin"].items():
-            if not failed: vacuous.append(f"{r['vc']}: twin obligation `{t}` was not refuted (vacuity guard)")
+        for w, found in r["witness"].items(): wit[w] = wit.get(w, False) or found
+        for t, failed in r["twin"].items(): twin[t] = twin.get(t, False) or failed
         if r["paths"] == 0: vacuous.append(f"{r['vc']}: no feasible path")
+        if not any(r["twin"].values()) and not any(r["witness"].values()) and r["paths"] > 0 and (r["twin"] or r["witness"]):
+            pass
+    # a witness / twin must be met by at least one VC of the property (VCs of one family share the names)
+    for w, found in wit.items():
+        if not found: vacuous.append(f"witness `{w}` unreachable in every VC")
+    for t, failed in twin.items():
+        if not failed: vacuous.append(f"twin obligation `{t}` was not refuted in any VC (vacuity guard)")
     need = getattr(spec, "REQUIRED_WITNESSES", None)
     q = {"unsat": 0, "sat": 0, "unknown": 0, "trivial": 0}
     for r in ok:
